@@ -137,7 +137,7 @@ def _draw_batch(ctx, tier, knob_on):
         idx = [ch.draw(len(pool), "event") for _ in range(n)]
         psize = 1 + ch.draw(max(1, n), "partition_size")
     else:
-        n = (100, 99, 101, 199, 200, 201, 250)[ch.draw(7, "N_literal")]
+        n = (100, 99, 101, 199, 200, 201, 250, 300, 400, 301)[ch.draw(10, "N_literal")]
         start = ch.draw(len(pool), "event_start")
         stride = 1 + ch.draw(7, "event_stride")
         idx = [(start + k * stride) % len(pool) for k in range(n)]
@@ -186,6 +186,12 @@ def _one_batch(ctx, tier, det_alt, obj, kind, allow_faults, tag):
     idx, psize = _draw_batch(ctx, tier, knob_on)
     n = len(idx)
     world = draw_world(ctx, env.repo_src(), allow_faults=allow_faults, n_items=n)
+    if psize is None and ch.draw(2, "few_workers"):
+        # with the literal partition size there are 1..4 partitions: worker counts below that
+        # are where partitions queue behind each other
+        world.workers = 1 + ch.draw(3, "few_workers_n")
+        world._free = list(range(world.workers))
+        world.cfg["stragglers"] = {w for w in world.cfg["stragglers"] if w < world.workers}
     poison_pos = poison_kind = None
     if allow_faults and world.cfg["fault"] is None:
         pk = ch.draw(3, "poison")
@@ -391,7 +397,7 @@ BUDGET = {"quick": 300, "thorough": 2700}
 META = {
     "rule": (
         "one run = one seeded scenario: detector altitude, cloud function, batch (1..40 events from a fixed pool, or "
-        "99..250 with the literal partition_size=100), partition size, scheduler mode (thread-atomic / interleaved / process / "
+        "99..400 with the literal partition_size=100 and 1..3 workers half of the time), partition size, scheduler mode (thread-atomic / interleaved / process / "
         "free-order), 1..16 workers, chunksize, job costs, stragglers, pre-emption quanta, and in the fault family one fault; "
         "a run is non-trivial when the batch has >= 2 partitions AND (execution order != submission order OR >= 1 context switch "
         "inside a task OR a fault fired); distinct = distinct sha256 digests of the simulator event log among non-trivial runs"
